@@ -1,6 +1,7 @@
 package main
 
 import (
+	"runtime"
 	"fmt"
 	"go/constant"
 	"go/token"
@@ -227,6 +228,18 @@ func ruleFlockSibling(c *Ctx, id string) {
 				bad = fmt.Sprintf("%d lock primitive calls", len(calls))
 			} else {
 				lc := calls[0]
+				// the primitive is part of the contract: flock(2) locks belong to the open file description (a second
+				// Open in the same process is refused, closing another descriptor of the file does not drop the lock);
+				// fcntl record locks belong to the PROCESS. Only the ports that have no flock use fcntl.
+				goos := c.P.GOOS
+				if goos == "" {
+					goos = runtime.GOOS
+				}
+				wantPrim := map[string]string{"linux": "Flock", "darwin": "Flock", "freebsd": "Flock", "openbsd": "Flock", "netbsd": "Flock", "dragonfly": "Flock",
+					"solaris": "FcntlFlock", "aix": "FcntlFlock", "android": "FcntlFlock", "windows": "LockFileEx"}[goos]
+				if wantPrim != "" && !strings.HasSuffix(lc.name, "."+wantPrim) {
+					bad = fmt.Sprintf("on %s the file lock is taken with %s, want %s (per-process record locks do not exclude a second open from the same process and vanish when any descriptor of the file is closed)", goos, lc.name, wantPrim)
+				}
 				switch lc.name {
 				case "syscall.Flock", "unix.Flock":
 					nb, ex, sh := c.mustConst("syscall", "LOCK_NB"), c.mustConst("syscall", "LOCK_EX"), c.mustConst("syscall", "LOCK_SH")
